@@ -24,6 +24,7 @@ type SpecEnv struct {
 	bound       int
 	ghostOf     *ghostCtx
 	postMode    bool
+	witness     map[string]Val // values to use for existentially bound names
 }
 
 func (x *Exec) envAt(fr *Frame, at *ssa.BasicBlock, st *State) *SpecEnv {
@@ -473,6 +474,15 @@ func (x *Exec) evalBinary(env *SpecEnv, e EBinary) Val {
 			return Val{T: Term{app("gomod", a.T, b.T), "Int"}, Typ: a.Typ}
 		}
 	}
+	if isFloat(a.Typ) && (op == token.EQL || op == token.NEQ) {
+		// specification equality on floats is identity of the value (NaN equals NaN,
+		// +0 differs from -0), not IEEE comparison: "the same value was stored"
+		r := mkEq(a.T, b.T)
+		if op == token.NEQ {
+			r = mkNot(r)
+		}
+		return Val{T: r, Typ: boolT}
+	}
 	t := x.binop(nil, env.cur, op, a, b, a.Typ, b.Typ, rt, nil, token.NoPos)
 	return Val{T: t, Typ: rt}
 }
@@ -584,22 +594,94 @@ func (x *Exec) evalIndex(env *SpecEnv, e EIndex) Val {
 }
 
 func (x *Exec) evalQuant(env *SpecEnv, e EQuant) Val {
-	n := env
+	if !e.Forall && env.witness != nil {
+		all := true
+		for _, p := range e.Vars {
+			if _, ok := env.witness[p.Name]; !ok {
+				all = false
+			}
+		}
+		if all {
+			// the contract names a witness for each bound variable: prove the body for it
+			n := env
+			for _, p := range e.Vars {
+				t := x.resolveType(env, p.Type)
+				w := x.coerce(env.witness[p.Name], t)
+				w.Typ = t
+				n = n.with(p.Name, w)
+			}
+			return Val{T: x.evalBool(n, e.Body), Typ: types.Typ[types.Bool]}
+		}
+	}
 	x.inQuant++
 	defer func() { x.inQuant-- }()
-	var binders []string
-	var guards []Term
+	type bv struct {
+		p    Param
+		t    types.Type
+		name string
+		srt  string
+	}
+	var vars []bv
 	for _, p := range e.Vars {
 		t := x.resolveType(env, p.Type)
-		env.bound++
 		name := fmt.Sprintf("%s!q%d", sanitize(p.Name), x.count("q"))
-		srt := x.S.SortOf(t)
-		binders = append(binders, fmt.Sprintf("(%s %s)", name, srt))
-		v := Val{T: Term{name, srt}, Typ: t}
-		guards = append(guards, x.typeInv(v.T, t, 0))
-		n = n.with(p.Name, v)
+		vars = append(vars, bv{p, t, name, x.S.SortOf(t)})
+	}
+	// Pass A: evaluate with plain variables, recording which slice offset each
+	// integer variable is used to index from. Pass B re-evaluates with the
+	// variable shifted by that offset, so that element accesses read
+	// (select arr p) for the bound p itself: quantifier patterns then contain
+	// no arithmetic and E-matching is robust.
+	saved := x.idxUses
+	x.idxUses = map[string]map[string]bool{}
+	n := env
+	for _, v := range vars {
+		n = n.with(v.p.Name, Val{T: Term{v.name, v.srt}, Typ: v.t})
+		x.idxUses[v.name] = map[string]bool{}
 	}
 	body := x.evalBool(n, e.Body)
+	uses := x.idxUses
+	x.idxUses = saved
+	shifted := false
+	n = env
+	var binders []string
+	var guards []Term
+	for _, v := range vars {
+		val := Val{T: Term{v.name, v.srt}, Typ: v.t}
+		if isInteger(v.t) && len(uses[v.name]) == 1 {
+			var off string
+			for o := range uses[v.name] {
+				off = o
+			}
+			dep := false
+			for _, w := range vars {
+				if strings.Contains(off, w.name) {
+					dep = true
+				}
+			}
+			if off != "0" && !strings.HasPrefix(off, "(_ bv0 ") && !dep && v.srt == x.S.Idx() {
+				if x.mode == ModeBV {
+					val.T = Term{fmt.Sprintf("(bvsub %s %s)", v.name, off), v.srt}
+				} else {
+					val.T = Term{fmt.Sprintf("(- %s %s)", v.name, off), v.srt}
+				}
+				shifted = true
+			}
+		}
+		binders = append(binders, fmt.Sprintf("(%s %s)", v.name, v.srt))
+		if !isInteger(v.t) {
+			// integer bound variables are mathematical integers (specification
+			// quantifiers range over all of Int; bodies guard their own index ranges)
+			guards = append(guards, x.typeInv(val.T, v.t, 0))
+		}
+		n = n.with(v.p.Name, val)
+	}
+	if shifted {
+		saved := x.idxUses
+		x.idxUses = nil
+		body = x.evalBool(n, e.Body)
+		x.idxUses = saved
+	}
 	g := mkAnd(guards...)
 	if e.Forall {
 		return Val{T: Term{fmt.Sprintf("(forall (%s) %s)", strings.Join(binders, " "), mkImp(g, body).S), "Bool"}, Typ: types.Typ[types.Bool]}
